@@ -63,6 +63,9 @@ type Case struct {
 	// Locker is locked again at once, or "lock-rel": the Locker is locked again and the answer arrives afterwards. The
 	// second tenure is the tenure under study (End = unlock after HoldU >= 3 periods): its lease must stay in force, its
 	// renewals must be a trace of the model (never early, one chain), nothing of the earlier tenure may change the record.
+	// death scenarios: a SECOND caller is parked in LockWithCtx before the parked contender and gives up (context
+	// deadline TTL/4 after the death, i.e. before the record can run out): the remaining one must still acquire
+	Early bool `json:"early,omitempty"`
 	Pre  string `json:"pre,omitempty"`
 	PreK int    `json:"pre_k,omitempty"`
 	Jit   uint64 `json:"jit"`
@@ -387,7 +390,13 @@ func runScenario(cs Case) (o *outcome) {
 		wg.Add(1)
 		go func() {
 			defer wg.Done()
-			sleepUntil(acquiredAt.Add(time.Duration(cs.HoldU) * ttl / 48))
+			if cs.Early {
+				// the other caller (below) is parked alone when the holder dies; this one joins it after the death
+				// (no renewal wakes the two any more) and stays when the other one gives up
+				sleepUntil(endAt.Add(ttl / 16))
+			} else {
+				sleepUntil(acquiredAt.Add(time.Duration(cs.HoldU) * ttl / 48))
+			}
 			func() {
 				defer func() { recover() }()
 				if l2.LockWithCtx(ctx2) == nil {
@@ -396,6 +405,22 @@ func runScenario(cs Case) (o *outcome) {
 				}
 			}()
 		}()
+		if cs.Early {
+			lx := p1.NewLocker("L")
+			wg.Add(1)
+			go func() {
+				defer wg.Done()
+				sleepUntil(acquiredAt.Add(time.Duration(cs.HoldU) * ttl / 48))
+				ctxX, cancelX := context.WithDeadline(ctx, endAt.Add(ttl/4))
+				defer cancelX()
+				func() {
+					defer func() { recover() }()
+					if lx.LockWithCtx(ctxX) == nil {
+						lx.Unlock() // only if the holder's lease lapsed meanwhile (the trace shows it)
+					}
+				}()
+			}()
+		}
 		sleepUntil(endAt)
 		atomic.StoreInt32(&paused, 1)
 		c.mark(kDie)
@@ -778,7 +803,7 @@ func generate(seed uint64, thorough bool) []Case {
 				if big {
 					base = r.Range(1, 3)
 				}
-				add(Case{TTLms: ttl, Acq: acq(), HoldU: base*12 + ph, End: "death"})
+				add(Case{TTLms: ttl, Acq: acq(), HoldU: base*12 + ph, End: "death", Early: (ph+round)%2 == 1})
 			}
 			// (iii) request-lost on the k-th renewal, k = 1..5, series of 1..maxBurst
 			ks := []int{1, 2, 3, 4, 5}
@@ -976,6 +1001,9 @@ func main() {
 			s.Count("reply-lost-probe")
 		}
 		if cs.End == "death" {
+			if cs.Early {
+				s.Count("death:with-a-second-parked-caller-that-gives-up")
+			}
 			s.Count(fmt.Sprintf("death-phase:%d", cs.HoldU%12))
 		}
 		if strings.HasPrefix(cs.End, "race") {
